@@ -1,5 +1,6 @@
 import Inkayaku.Proofs.SearchRoot
 import Inkayaku.Proofs.SearchCongr
+import Inkayaku.Proofs.WfStepProof
 import Inkayaku.Model.FenBoard
 /-!
 # C09 — an interrupted search leaves the position alone and still answers once
@@ -19,8 +20,9 @@ every ply and in every iteration, and every timing of stop or move-time expiry, 
 Hypotheses.
 * H1 (`unmake ∘ make` restores the visible position of a well-formed board for every generated move) is PROVED
   (`Search.unmake_make_of_generated`, from C03).
-* H2' `BoardLaws.make_inv` (WF step with clock budget): a generated move that passes `isValid` takes a board with
-  `Inv (k+1)` to a board with `Inv k`, where `Inv k b := wf b ∧ b.halfmove + k ≤ 4095 ∧ b.fullmove + k < 2^31`.
+* H2' (WF step with clock budget) is PROVED (`Search.boardLaws`, `Proofs/MakeWf.lean`, `Proofs/GenStrong.lean`): a
+  generated move that passes `isValid` takes a board with `Inv (k+1)` to a board with `Inv k`, where
+  `Inv k b := wf b ∧ b.halfmove + k ≤ 4095 ∧ b.fullmove + k < 2^31`.
   (The unbudgeted form `wf b → wf (make b m)` is FALSE: `wf` bounds the half-move clock by the 12-bit undo field of the
   packed move and the full-move counter by 2^31; a quiet move from `halfmove = 4095` leaves the well-formed boards.)
 * H3 (every board function the search uses depends on the visible position `WF.vis` only) is PROVED:
@@ -42,75 +44,75 @@ open Inkayaku.Search Inkayaku.Board Inkayaku.WF
 /-! ## the bracket: every search function returns the board it was given -/
 
 /-- `search_quiescence`, every exit path -/
-theorem quiescence_board (L : BoardLaws) (fuel : Nat) (s : St) (α β : Int) (hwf : Inv fuel s.board) :
+theorem quiescence_board (fuel : Nat) (s : St) (α β : Int) (hwf : Inv fuel s.board) :
     vis (quiescence fuel s α β).2.board = vis s.board :=
-  quiescence_ok L fuel s α β hwf
+  quiescence_ok boardLaws fuel s α β hwf
 
 /-- the move loop of `search_quiescence`, entered with any list of generated moves -/
-theorem quiescenceLoop_board (L : BoardLaws) (fuel : Nat) (s : St) (moves : List Move) (α β : Int) (bm : Option Move)
+theorem quiescenceLoop_board (fuel : Nat) (s : St) (moves : List Move) (α β : Int) (bm : Option Move)
     (bc : Option VM) (hwf : Inv (fuel + 1) s.board) (hmoves : ∀ m ∈ moves, m ∈ genPseudo s.board ∨ m ∈ genNonQuiescent s.board) :
     vis (quiescenceLoop fuel s moves α β bm bc).2.board = vis s.board :=
-  qLoop_of_q L (quiescence_ok L fuel) s.board hwf moves hmoves s α β bm bc rfl
+  qLoop_of_q boardLaws (quiescence_ok boardLaws fuel) s.board hwf moves hmoves s α β bm bc rfl
 
 /-- `search_negamax`, every exit path: illegal move, cut-off, abort by flag at any node, time-out return,
 transposition-table return, repetition return, out of fuel -/
-theorem negamax_board (L : BoardLaws) (fuel : Nat) (s : St) (ply maxPly : Nat) (α β : Int) (isPv : Bool) (h ph : UInt64)
+theorem negamax_board (fuel : Nat) (s : St) (ply maxPly : Nat) (α β : Int) (isPv : Bool) (h ph : UInt64)
     (hwf : Inv fuel s.board) :
     vis (negamax fuel s ply maxPly α β isPv h ph).2.board = vis s.board :=
-  negamax_ok L fuel s ply maxPly α β isPv h ph hwf
+  negamax_ok boardLaws fuel s ply maxPly α β isPv h ph hwf
 
 /-- the move loop of `search_negamax`, entered with any list of generated moves and any accumulator -/
-theorem negamaxLoop_board (L : BoardLaws) (fuel : Nat) (s : St) (moves : List Move) (ply maxPly : Nat) (β : Int)
+theorem negamaxLoop_board (fuel : Nat) (s : St) (moves : List Move) (ply maxPly : Nat) (β : Int)
     (isPv : Bool) (pvMove : Option Move) (h ph : UInt64) (rem : Nat) (acc : LoopAcc) (hwf : Inv (fuel + 1) s.board)
     (hmoves : ∀ m ∈ moves, m ∈ genPseudo s.board ∨ m ∈ genNonQuiescent s.board) :
     vis (negamaxLoop fuel s moves ply maxPly β isPv pvMove h ph rem acc).2.2.board = vis s.board :=
-  nLoop_of_n L (negamax_ok L fuel) s.board hwf moves hmoves s ply maxPly β isPv pvMove h ph rem acc rfl
+  nLoop_of_n boardLaws (negamax_ok boardLaws fuel) s.board hwf moves hmoves s ply maxPly β isPv pvMove h ph rem acc rfl
 
 /-- the iterative deepening loop of `best_move`, any number of iterations from any depth -/
-theorem deepen_board (L : BoardLaws) (n : Nat) (s : St) (d maxThinking : Nat) (best : Option VM)
+theorem deepen_board (n : Nat) (s : St) (d maxThinking : Nat) (best : Option VM)
     (uciPv : Option (List Move)) (score : Option Eval.Score) (hwf : Inv (fuelFor d + n) s.board) :
     vis (deepen n s d maxThinking best uciPv score).2.board = vis s.board :=
-  Search.deepen_board L n s d maxThinking best uciPv score hwf
+  Search.deepen_board boardLaws n s d maxThinking best uciPv score hwf
 
 /-- **a `go` — completed or interrupted at any point — does not alter the position the engine holds** -/
-theorem go_preserves_board (L : BoardLaws) (s : St) (g : GoParams) (maxIter : Nat)
+theorem go_preserves_board (s : St) (g : GoParams) (maxIter : Nat)
     (hwf : wf s.board = true) (hhalf : s.board.halfmove + (maxIter + 201) ≤ 4095)
     (hfull : s.board.fullmove + (maxIter + 201) < 2147483648) :
     vis (goCmd s g maxIter).board = vis s.board :=
-  Search.go_preserves_board L s g maxIter ⟨hwf, hhalf, hfull⟩
+  Search.go_preserves_board boardLaws s g maxIter ⟨hwf, hhalf, hfull⟩
 
 /-- the same with the side conditions packed into `Inv (goBudget maxIter)` -/
-theorem go_preserves_board' (L : BoardLaws) (s : St) (g : GoParams) (maxIter : Nat) (hinv : Inv (goBudget maxIter) s.board) :
+theorem go_preserves_board' (s : St) (g : GoParams) (maxIter : Nat) (hinv : Inv (goBudget maxIter) s.board) :
     vis (goCmd s g maxIter).board = vis s.board :=
-  Search.go_preserves_board L s g maxIter hinv
+  Search.go_preserves_board boardLaws s g maxIter hinv
 
 /-- … and the position stays well-formed, so the next `go` starts under the same hypotheses -/
-theorem go_preserves_inv (L : BoardLaws) (s : St) (g : GoParams) (maxIter : Nat) (k : Nat)
+theorem go_preserves_inv (s : St) (g : GoParams) (maxIter : Nat) (k : Nat)
     (hinv : Inv (goBudget maxIter) s.board) (hk : Inv k s.board) :
     Inv k (goCmd s g maxIter).board :=
-  Inv_congr (Search.go_preserves_board L s g maxIter hinv).symm hk
+  Inv_congr (Search.go_preserves_board boardLaws s g maxIter hinv).symm hk
 
 /-- **any number of consecutive (possibly interrupted) searches without a position command**: between two searches
 anything may happen to the search thread that does not touch the board (`GoStep.env`: messages arrive, `ucinewgame`,
 poll period / clock / pending messages change) -/
-theorem session_preserves_board (L : BoardLaws) (xs : List GoStep) (s : St)
+theorem session_preserves_board (xs : List GoStep) (s : St)
     (hinv : ∀ x ∈ xs, Inv (goBudget x.maxIter) s.board) :
     vis (runGos s xs).board = vis s.board :=
-  Search.session_preserves_board L xs s hinv
+  Search.session_preserves_board boardLaws xs s hinv
 
 
 /-- **the following `go` searches the same position as before**: after a first search (completed or interrupted in any
 way) a second `go` without a position command produces exactly the output it would produce if the board were reset to
 the board held before the first search, and it again leaves that position in place.  (`Search.goCmd_congr`: the search
 depends on the visible position only, so the scratch words left behind by the first search are irrelevant.) -/
-theorem next_go_searches_same_position (L : BoardLaws) (s : St) (g1 g2 : GoParams) (n1 n2 : Nat)
+theorem next_go_searches_same_position (s : St) (g1 g2 : GoParams) (n1 n2 : Nat)
     (hinv1 : Inv (goBudget n1) s.board) (hinv2 : Inv (goBudget n2) s.board) :
     (goCmd (goCmd s g1 n1) g2 n2).out = (goCmd { goCmd s g1 n1 with board := s.board } g2 n2).out ∧
     vis (goCmd (goCmd s g1 n1) g2 n2).board = vis s.board := by
-  have h1 := Search.go_preserves_board L s g1 n1 hinv1
+  have h1 := Search.go_preserves_board boardLaws s g1 n1 hinv1
   have he : Eqv { goCmd s g1 n1 with board := s.board } (goCmd s g1 n1) := ⟨(goCmd s g1 n1).board, h1, rfl⟩
   refine ⟨(goCmd_congr he g2 n2).1, ?_⟩
-  rw [Search.go_preserves_board L _ g2 n2 (Inv_congr h1.symm hinv2), h1]
+  rw [Search.go_preserves_board boardLaws _ g2 n2 (Inv_congr h1.symm hinv2), h1]
 
 /-! ## the answer of an interrupted search -/
 
@@ -166,6 +168,7 @@ theorem bestmove_none_iff_no_completed_iteration (s : St) (g : GoParams) (maxIte
 #print axioms go_preserves_board'
 #print axioms go_preserves_inv
 #print axioms Search.unmake_make_of_generated
+#print axioms Search.boardLaws
 #print axioms session_preserves_board
 #print axioms next_go_searches_same_position
 #print axioms Search.goCmd_congr
@@ -198,6 +201,10 @@ def lawsHoldAt (b : Board) : Bool :=
     vis (unmake (make b m) m) == vis b && (!isValid (make b m) || wf (make b m))
 
 #guard lawsHoldAt Search.initial.board
+/-- the proved laws instantiated on a concrete move: 1. e4 from the start position keeps the budgeted invariant -/
+example (m : Move) (hm : m ∈ genPseudo Search.initial.board) (hv : isValid (make Search.initial.board m) = true) :
+    Inv 3000 (make Search.initial.board m) :=
+  boardLaws.make_inv 3000 _ m ⟨by decide +kernel, by decide, by decide⟩ (Or.inl hm) hv
 
 /-- an interrupted search: `stop` waiting in the channel, polled every 5 nodes, depth 4 -/
 def interrupted : St := goCmd { Search.initial with pollPeriod := 5, pending := [.stop] } { depth := some 4 } 8
@@ -225,5 +232,20 @@ def threeGos : List GoStep :=
 -- after an interrupted search, a depth-2 search answers as from the untouched start position
 #guard bestMoves (goCmd { interrupted with out := [], pending := [], pollPeriod := 100000 } { depth := some 2 } 4).out
   == bestMoves (goCmd { Search.initial with pv := interrupted.pv, killers := interrupted.killers } { depth := some 2 } 4).out
+
+/-- the WF step evaluated on every legal move of positions that exercise castling (both sides, both wings), en passant,
+promotions with and without capture, and captures of rooks on their home squares -/
+def bd (s : String) : Board := match FenBoard.fromFenString s with | .ok b => b | .error _ => Search.initial.board
+def stepHoldsAt (fen : String) : Bool :=
+  let b := bd fen
+  wf b && (genPseudo b ++ genNonQuiescent b).all fun m => !isValid (make b m) || wf (make b m)
+#guard stepHoldsAt "r3k2r/p1ppqpb1/bn2pnp1/3PN3/1p2P3/2N2Q1p/PPPBBPPP/R3K2R w KQkq - 0 1"
+#guard stepHoldsAt "r3k2r/p1ppqpb1/bn2pnp1/3PN3/1p2P3/2N2Q1p/PPPBBPPP/R3K2R b KQkq - 0 1"
+#guard stepHoldsAt "rnbqkbnr/ppp1p1pp/8/3pPp2/8/8/PPPP1PPP/RNBQKBNR w KQkq f6 0 3"
+#guard stepHoldsAt "r3k2r/Pppp1ppp/1b3nbN/nP6/BBP1P3/q4N2/Pp1P2PP/R2Q1RK1 w kq - 0 1"
+#guard stepHoldsAt "r3k3/1P6/8/3pP3/8/8/8/4K2R w Kq d6 0 2"
+-- the clock bounds are real: at half-move clock 4095 a quiet move leaves the well-formed boards
+#guard (let b := { bd "4k3/8/8/8/8/8/8/4K2R w K - 0 1" with halfmove := 4095 }
+        wf b && (genPseudo b).any fun m => isValid (make b m) && !wf (make b m))
 
 end Inkayaku.C09
